@@ -74,25 +74,19 @@ Definition decode_dow (from : list Z) : Z :=
   end.
 
 (* ---------------------------------------------------------------- time_parse, timeonly *)
-(* parse_decimal(ptr, 2, to) with to == 0 on entry:  to = (to << 3) + (to << 1) + (next char - '0'), twice.
-   After the first character [to] is c0 - '0'; a negative value is then shifted left (UB). *)
-Definition parse2 (c0 c1 : Z) : option Z :=
-  let t0 := schar c0 - 48 in
-  if t0 <? 0 then None else Some (t0 * 10 + (schar c1 - 48)).
+(* parse_decimal(ptr, 2, to) with to == 0 on entry:  to = to * 10 + (next char - '0'), twice
+   (int arithmetic; no validation: any character is taken, the value may be negative). *)
+Definition parse2 (c0 c1 : Z) : Z := (0 * 10 + (schar c0 - 48)) * 10 + (schar c1 - 48).
 
 (* get_time_field(which, tag, true): attribute present and of size 8 ? time_parse(.., 8, true)
    : errorticks.  The characters at positions 2 and 5 are skipped without a look.
    result += (tm_hour * 3600ULL + tm_min * 60ULL + tm_sec) * Tickval::billion   (unsigned wrap) *)
-Inductive tp_result := TP_ub | TP_val (v : Z).
-
-Definition get_time_field (a : option (list Z)) : tp_result :=
+Definition get_time_field (a : option (list Z)) : Z :=
   match a with
   | Some [h0; h1; _; m0; m1; _; s0; s1] =>
-    match parse2 h0 h1, parse2 m0 m1, parse2 s0 s1 with
-    | Some h, Some m, Some s => TP_val (s64 (((h * 3600 + m * 60 + s) mod W64 * billion) mod W64))
-    | _, _, _ => TP_ub
-    end
-  | _ => TP_val errorticks
+    let h := parse2 h0 h1 in let m := parse2 m0 m1 in let s := parse2 s0 s1 in
+    s64 (((h * 3600 + m * 60 + s) mod W64 * billion) mod W64)
+  | _ => errorticks
   end.
 
 (* ---------------------------------------------------------------- create_schedule *)
@@ -113,17 +107,13 @@ Inductive cs_result :=
 | CS_ok (s : sched).
 
 Definition create_schedule (x : xattrs) : cs_result :=
-  match get_time_field (x_start x) with
-  | TP_ub => CS_ub
-  | TP_val start =>
-    if start =? errorticks then CS_invalid
+  let start := get_time_field (x_start x) in
+    if start =? errorticks then CS_invalid             (* if (!start.is_errorval()) ... else return {} *)
     else
       let utc_offset := match x_utc x with Some v => v | None => 0 end in
       (* const unsigned duration(which->FindAttr("duration", 0)): int converted to unsigned *)
       let duration := (match x_dur x with Some v => v | None => 0 end) mod W32 in
-      match get_time_field (x_end x) with
-      | TP_ub => CS_ub
-      | TP_val end0 =>
+      let end0 := get_time_field (x_end x) in
         let sd := match x_sd x with Some s => decode_dow s | None => -1 end in
         let ed := match x_ed x with Some s => decode_dow s
                                  | None => if sd <? 0 then -1 else sd end in
@@ -138,9 +128,7 @@ Definition create_schedule (x : xattrs) : cs_result :=
             else CS_ub
           else CS_ok (mkSched start end0 duration utc_offset sd ed)
         else if end0 <=? start then CS_error
-        else CS_ok (mkSched start end0 duration utc_offset sd ed)
-      end
-  end.
+        else CS_ok (mkSched start end0 duration utc_offset sd ed).
 
 (* ---------------------------------------------------------------- Schedule::test *)
 (* _toffset(static_cast<Tickval::ticks>(_utc_offset) * Tickval::minute) *)
@@ -220,3 +208,16 @@ Fixpoint run_o (c : sched) (prev : bool) (ts : list Z) : option (list bool) :=
 (* what the harness prints of a create_schedule result, as (start, end or none, utc, days);
    not part of the transcription: used to apply the oracle to the model's own result *)
 Definition observe_end (e : Z) : option Z := if e =? errorticks then None else Some e.
+
+(* ---------------------------------------------------------------- the configured path *)
+(* create_session_schedule / create_login_schedule build the Schedule with create_schedule;
+   Session::activation_service then polls it.  An invalid schedule is never polled here. *)
+Inductive cr_result := CR_ub | CR_invalid | CR_error | CR_bits (l : list bool).
+
+Definition configured_run (x : xattrs) (prev : bool) (ts : list Z) : cr_result :=
+  match create_schedule x with
+  | CS_ub => CR_ub
+  | CS_invalid => CR_invalid
+  | CS_error => CR_error
+  | CS_ok c => match run_o c prev ts with None => CR_ub | Some l => CR_bits l end
+  end.
